@@ -128,5 +128,33 @@ Definition icheck (c : icase) : bool :=
 Definition private_file_open (files : list (string * N * bool)) : bool :=
   existsb (fun f : string * N * bool => snd f && negb (others_bits (snd (fst f)) =? 0)) files.
 Definition iviolates (c : icase) : bool :=
-  let '(e, w, suffix, user, n, obs, files) := c in
-  key_in_undesignated e w n obs || private_file_open files.
+  let '(e, w, suffix, user, n, obs, files) := c in key_in_undesignated e w n obs.
+Definition iviolates_mode (c : icase) : bool :=
+  let '(e, w, suffix, user, n, obs, files) := c in private_file_open files.
+
+(* ------------------------------------------------------------------ property predicates on other observations *)
+(* (what the soundness theorems conclude, evaluated on what was observed; used by the case files to tell a
+   mismatch on which the observation itself breaks the property from one that only differs from the model) *)
+
+(* agent histories: c19_agent_replace / c19_agent_replace_faulty on the listing before and after one installation *)
+Definition lost_collateral (before after : agent) (n : entry) : bool :=
+  existsb (fun x => negb (is_dup (e_comment n) x) && negb (bs_eqb (e_blob x) (e_blob n)) && negb (existsb (entry_eqb x) after)) before.
+Definition upsert_obs_violates (before : agent) (n : entry) (ok : bool) (after : agent) : bool :=
+  lost_collateral before after n ||
+  (if ok then negb (Nat.eqb (length (filter (is_dup (e_comment n)) after)) 1)
+   else holds_blob (e_blob n) after && negb (holds_blob (e_blob n) before)).
+Fixpoint aviolates (prev : agent) (ops : list (aop * agent)) : bool :=
+  match ops with
+  | [] => false
+  | (o, listing) :: r =>
+      match o with
+      | AForeign _ => false
+      | AUpsert e => upsert_obs_violates prev e true listing
+      | AUpsertF _ _ _ e _ ok => upsert_obs_violates prev e ok listing
+      end || aviolates listing r
+  end.
+
+(* one client run: a request carries a private atom (codes 10..12), or a private file is open to group/others *)
+Definition run_violates (c : N * bool * bool * bool * bool * string * list (N * list N) * list (string * N * bool) * list string) : bool :=
+  let '(pc, agent_ok, ed_ok, k8s_ok, otp, user, wire, files, labels) := c in
+  existsb (fun r : N * list N => existsb (fun a => (10 <=? a) && (a <=? 12)) (snd r)) wire || private_file_open files.
